@@ -84,6 +84,12 @@ func apply(img []byte, refs []fmtb.Ref, m mut, u int) string {
 		copy(img[r.Off+1:], pats[m.Choice%len(pats)])
 		return "rec.serial9"
 	}
+	if m.Class == 5 {
+		return applyRunaway(img, refs, m, u)
+	}
+	if m.Class == 6 {
+		return applyHeader(img, m)
+	}
 	var sel []fmtb.Ref
 	for _, r := range refs {
 		if classOf(r.Kind) == m.Class%4 {
@@ -135,6 +141,128 @@ func apply(img []byte, refs []fmtb.Ref, m mut, u int) string {
 		}
 	}
 	return r.Kind
+}
+
+// applyHeader sets one of the numbers in the database header that the reader
+// could be tempted to believe (sizes and counts that come from the file).
+func applyHeader(img []byte, m mut) string {
+	if len(img) < 100 {
+		return "beyond-truncation"
+	}
+	offs := []int{28, 28, 28, 32, 36, 24, 92, 40, 44, 52, 56, 64, 16, 20}
+	off := offs[m.Ref%len(offs)]
+	if off == 16 || off == 20 {
+		vals := [][]byte{{0, 1}, {2, 0}, {0, 0}, {0x80, 0}, {4, 0}, {1, 0}, {0xff, 0xff}, {2, 1}}
+		v := vals[m.Choice%len(vals)]
+		if off == 20 {
+			img[20] = v[0]
+			return "hdr.reserved"
+		}
+		copy(img[16:], v)
+		return "hdr.pagesize"
+	}
+	old := binary.BigEndian.Uint32(img[off:])
+	vals := []uint32{0, 1, 0x7fffffff, 0xffffffff, 0x80000000, old + 1, old - 1, old * 2, 1 << 20, 1 << 30, 2, 3, 5}
+	binary.BigEndian.PutUint32(img[off:], vals[m.Choice%len(vals)])
+	if off == 28 && m.Choice/len(vals)%4 != 0 {
+		// the in-header size counts only when version-valid-for equals the
+		// change counter: keep them equal, as a careful forger would
+		copy(img[92:96], img[24:28])
+	}
+	return fmt.Sprintf("hdr.%d", off)
+}
+
+// applyRunaway builds the combination that asks for unbounded work: one leaf
+// page gets a single cell declaring a payload far larger than the file, its
+// overflow chain is closed to a loop (or runs through every page), and - half
+// of the time - the header claims a file of billions of pages. Every field is
+// well-formed on its own.
+func applyRunaway(img []byte, refs []fmtb.Ref, m mut, u int) string {
+	n := len(img) / u
+	if n < 3 || len(img) < 100 {
+		return "beyond-truncation"
+	}
+	var leaves []fmtb.Ref
+	for _, r := range refs {
+		if r.Kind == "page.type" && r.Page >= 2 && r.Page <= n && (img[r.Off] == 13 || img[r.Off] == 10) {
+			leaves = append(leaves, r)
+		}
+	}
+	if len(leaves) == 0 {
+		return "none"
+	}
+	c := m.Choice
+	leaf := leaves[m.Ref%len(leaves)]
+	typ := img[leaf.Off]
+	lengths := []uint64{1 << 40, 1<<63 - 1, 1 << 31, 1 << 33, 1 << 62, uint64(len(img)) * 64, 1 << 24}
+	L := lengths[c%len(lengths)]
+	c /= len(lengths)
+	// local part of the payload, by the file format's rule
+	x := u - 35
+	if typ == 10 {
+		x = (u-12)*64/255 - 23
+	}
+	mm := (u-12)*32/255 - 23
+	k := mm + int((L-uint64(mm))%uint64(u-4))
+	if k > x {
+		k = mm
+	}
+	var cell []byte
+	cell = append(cell, fmtb.Varint(L, 0)...)
+	if typ == 13 {
+		cell = append(cell, byte(1+c%100))
+	}
+	// a record: header of 2 bytes, one blob/text that takes the rest
+	local := make([]byte, k)
+	local[0] = 3
+	local[1], local[2] = 0xff, 0x7f
+	cell = append(cell, local...)
+	// the chain: first page q, then a walk that ends in a loop
+	first := 2 + (m.Ref/7)%(n-1)
+	cell = binary.BigEndian.AppendUint32(cell, uint32(first))
+	base := (leaf.Page - 1) * u
+	start := u - len(cell)
+	if start < 10 {
+		return "none"
+	}
+	for i := base; i < base+u; i++ {
+		img[i] = 0
+	}
+	img[base] = typ
+	binary.BigEndian.PutUint16(img[base+3:], 1)
+	binary.BigEndian.PutUint16(img[base+5:], uint16(start))
+	binary.BigEndian.PutUint16(img[base+8:], uint16(start))
+	copy(img[base+start:], cell)
+	switch c % 4 {
+	case 0: // self loop
+		binary.BigEndian.PutUint32(img[(first-1)*u:], uint32(first))
+	case 1: // loop over two or three pages
+		second := 2 + (first-1)%(n-1)
+		binary.BigEndian.PutUint32(img[(first-1)*u:], uint32(second))
+		if second != leaf.Page || first == leaf.Page {
+			binary.BigEndian.PutUint32(img[(second-1)*u:], uint32(first))
+		}
+	case 2: // through every other page of the file, then round again
+		var ps []int
+		for p := 2; p <= n; p++ {
+			if p != leaf.Page {
+				ps = append(ps, p)
+			}
+		}
+		for i, p := range ps {
+			binary.BigEndian.PutUint32(img[(p-1)*u:], uint32(ps[(i+1)%len(ps)]))
+		}
+		binary.BigEndian.PutUint32(img[base+start+len(cell)-4:], uint32(ps[first%len(ps)]))
+	case 3: // back to the leaf page itself (its first bytes are the page header)
+	}
+	c /= 4
+	if c%2 == 0 {
+		sizes := []uint32{0x7fffffff, 0xffffffff, 1 << 24, 0x80000000}
+		binary.BigEndian.PutUint32(img[28:], sizes[c/2%len(sizes)])
+		copy(img[92:96], img[24:28])
+		return "runaway.chain+header-size"
+	}
+	return "runaway.chain"
 }
 
 func genJournal(t *rapid.T) []byte {
@@ -233,7 +361,7 @@ func TestC05Mutate(t *testing.T) {
 			s := mutSpec{Img: btgen.Image(t, btgen.Opts{MaxRows: 20, Indexes: true, WR: true, LongValues: true, RowidAlias: true, PageSizes: []int{512, 512, 512, 1024, 4096}})}
 			n := rapid.IntRange(0, 3).Draw(t, "nmut")
 			for i := 0; i < n; i++ {
-				s.Muts = append(s.Muts, mut{Class: rapid.SampledFrom([]int{0, 0, 0, 1, 1, 2, 3, 3, 4}).Draw(t, "class"), Ref: rapid.IntRange(0, 100000).Draw(t, "ref"), Choice: rapid.IntRange(0, 1000).Draw(t, "choice")})
+				s.Muts = append(s.Muts, mut{Class: rapid.SampledFrom([]int{0, 0, 0, 1, 1, 2, 3, 3, 4, 5, 6}).Draw(t, "class"), Ref: rapid.IntRange(0, 100000).Draw(t, "ref"), Choice: rapid.IntRange(0, 1000).Draw(t, "choice")})
 			}
 			switch rapid.IntRange(0, 9).Draw(t, "extra") {
 			case 0:
